@@ -19,7 +19,7 @@ EXHAUSTIVE = True
 RULE = (
     "space_dim 1..3 x every shape with extents 1..N x physical-dimension patterns (dyadic; rotations of (1e-4,0.7,1,2.5,1e4); thorough: "
     "full product) x origin {default, near, far=1e6 voxel sizes} x payload {scalar, vector, series, vector series} x constructor form "
-    "{dimensions=, height/width/depth}; per image every voxel in [-2, n+1]^d x intra-voxel offsets {1/8,1/2,7/8}^d + points 2^-20 of a voxel inside each face (quick: centre and "
+    "{dimensions=, height/width/depth} + long axes (every voxel count 13..200); per image the bounding box, the all-voxel batches and every voxel in [-2, n+1]^d x intra-voxel offsets {1/8,1/2,7/8}^d + points 2^-20 of a voxel inside each face (quick: centre and "
     "the two extreme corners), batch and single-point call forms, typed point objects. Non-trivial = every image (each has >= 1 voxel "
     "and a halo); distinct = distinct (shape, dimensions, origin, payload, ctor)."
 )
@@ -61,6 +61,14 @@ def cases(tier):
                                 # quick: payload/ctor product only on the dyadic pattern + two diagonal combos on stress
                                 continue
                             out.append({"dim": dim, "shape": list(shape), "dims": dims, "origin": origin, "payload": payload, "ctor": ctor})
+    # long single axes (every voxel count 13..200 at extents 1.0 and 0.7; 2-D: the long axis next to a
+    # short one): per-axis vectors built by stepping through floats miscount exactly for some counts
+    for n in range(13, 201):
+        for ext in (1.0, 0.7):
+            out.append({"dim": 1, "shape": [n], "dims": [ext], "origin": "default", "payload": "scalar", "ctor": "dimensions"})
+        if n % 7 == 0 or n in (49, 98, 103, 107, 196, 197):
+            out.append({"dim": 2, "shape": [n, 2], "dims": [1.0, 0.5], "origin": "near", "payload": "scalar", "ctor": "dimensions"})
+            out.append({"dim": 2, "shape": [3, n], "dims": [0.75, 1.0], "origin": "default", "payload": "vector", "ctor": "dimensions"})
     out.sort(key=lambda c: (int(np.prod(c["shape"])), c["dim"], c["dims"] is not None, c["origin"] != "default"))
     return out
 
@@ -171,6 +179,15 @@ def run_case(case, r):
     for m in range(dim):
         want_disp[conv[m][0]] = dims[m]
     r.check(bool(np.all(np.abs(disp - want_disp) <= tolc + (0 if exact else 4 * np.finfo(float).eps * want_disp))), f"C01/opposite-corner/{tag}/{pl}", "|opposite - origin| equals the physical dimensions", got=disp, want=want_disp)
+    # (i') the bounding box and the all-voxel batches of the coordinate system follow the same model
+    want_min, want_max = np.minimum(origin, want_opp), np.maximum(origin, want_opp)
+    r.check(close(np.asarray(cs.min_coordinate, dtype=float), want_min) and close(np.asarray(cs.max_coordinate, dtype=float), want_max), f"C01/domain/{tag}", "min_coordinate / max_coordinate are the extremes of origin and opposite corner (origin displaced by the physical dimensions)", got_min=np.asarray(cs.min_coordinate), got_max=np.asarray(cs.max_coordinate), want_min=want_min, want_max=want_max)
+    okd = all(abs(float(cs.domain["xyz"[c_] + "min"]) - want_min[c_]) <= tolc[c_] and abs(float(cs.domain["xyz"[c_] + "max"]) - want_max[c_]) <= tolc[c_] for c_ in range(dim))
+    r.check(okd, f"C01/domain/{tag}", "domain[axis min/max] is the bounding box of the image along each Cartesian axis", got=dict(cs.domain), want_min=want_min, want_max=want_max)
+    allv = np.asarray(cs.voxels)
+    allc = np.asarray(cs.coordinates, dtype=float)
+    okb = allv.shape == (int(np.prod(shape)), dim) and allc.shape == allv.shape and len({tuple(v) for v in allv.tolist()}) == int(np.prod(shape)) and bool(np.all(allv >= 0)) and bool(np.all(allv < np.array(shape)))
+    r.check(okb and close(allc, ref_coord(allv)), f"C01/all-voxels-batch/{tag}", "voxels lists every voxel of the image once and coordinates[n] is the coordinate of voxels[n]", n_voxels=int(allv.shape[0]), n_coordinates=int(allc.shape[0]), want=int(np.prod(shape)))
     # (ii) unit steps (image properties used above request coordinate systems of the image itself;
     # the other images come last again)
     distract()
@@ -223,7 +240,10 @@ def run_case(case, r):
     # index arrays of every integer storage type (non-negative indices for the unsigned ones)
     Vp = V[np.all(V >= 0, axis=1)]
     for dt_ in ("uint8", "uint16", "uint32", "uint64", "int8", "int16", "int32"):
-        Vd = (Vp if dt_.startswith("u") else V).astype(dt_)
+        Vsrc = Vp if dt_.startswith("u") else V
+        if Vsrc.size and (Vsrc.max() > np.iinfo(dt_).max or Vsrc.min() < np.iinfo(dt_).min):
+            continue  # the indices of this image do not fit the type
+        Vd = Vsrc.astype(dt_)
         keepd = Vd.copy()
         Cd = cs.coordinate(Vd)
         r.check(close(Cd, ref_coord(keepd.astype(float))) and np.array_equal(Vd, keepd), f"C01/coordinate-batch/{tag}/index-dtype", "voxel indices stored as any integer type convert like int64 indices (and are left unchanged)", dtype=dt_)
